@@ -247,7 +247,7 @@ func runC09Protocol(c *Ctx) {
 		if midAuth != "" {
 			steps = append(steps, midAuth)
 		}
-		switch c.Rng.Intn(6) {
+		switch c.Rng.Intn(7) {
 		case 0, 1:
 			steps = append(steps, "R:srv 900 me me!u@h acct :You are now logged in", "R:srv 903 me :SASL authentication successful")
 		case 2:
@@ -256,6 +256,12 @@ func runC09Protocol(c *Ctx) {
 			steps = append(steps, "R:srv 908 me PLAIN,EXTERNAL :are available mechanisms", "R:srv 904 me :failed", "R:srv 903 me :late success")
 		case 4:
 			steps = append(steps, "R:srv 901 me me!u@h :You are now logged out")
+		case 5:
+			// numerics that say nothing about THIS exchange having succeeded: the registration does not go on before 903
+			steps = append(steps, "R:srv "+c.Rng.Pick([]string{"907 me :You have already authenticated using SASL", "900 me me!u@h acct :You are now logged in as acct", "907 me :again"}))
+			if c.Rng.Bool() {
+				steps = append(steps, "R:srv 903 me :SASL authentication successful")
+			}
 		}
 		steps = append(steps, "R:srv 001 me :Welcome")
 		stepsToIn(in, steps)
@@ -303,8 +309,8 @@ func runC14Replies(c *Ctx) {
 			cmd := c.Rng.Pick([]string{"PRIVMSG", "PRIVMSG", "PRIVMSG", "NOTICE"})
 			tgt := c.Rng.Pick([]string{"me", "#a", "ME"})
 			body := "\x01" + c.Rng.Pick(reqs) + "\x01"
-			if c.Rng.Chance(10) {
-				body = c.Rng.Pick([]string{"\x01VERSION", "VERSION\x01", "\x01\x01", "\x01", "x\x01VERSION\x01"})
+			if c.Rng.Chance(20) {
+				body = c.Rng.Pick([]string{"\x01VERSION", "VERSION\x01", "\x01\x01", "\x01", "x\x01VERSION\x01", "\x01VERSION\x01 ", "\x01FOOBAR\x01\t", " \x01PING 1\x01", "\x01TIME\x01  "})
 			}
 			steps = append(steps, "R"+src+cmd+" "+tgt+" :"+body)
 		}
